@@ -45,7 +45,7 @@ impl Out {
         self.nb += 1;
         self.rows += b.num_rows();
         // the crate's own full validation of what its reader returned (an observation, judged by the specification)
-        let vf = b.columns().iter().all(|c| c.to_data().validate_full().is_ok()) && RecordBatch::try_new(b.schema(), b.columns().to_vec()).is_ok();
+        let vf = b.columns().iter().all(|c| c.to_data().validate_full().is_ok()) && RecordBatch::try_new_with_options(b.schema(), b.columns().to_vec(), &arrow_array::RecordBatchOptions::new().with_row_count(Some(b.num_rows()))).is_ok();
         let small = b.num_rows() <= MAX_DUMP_ROWS && b.columns().iter().all(|c| c.len() <= MAX_DUMP_ROWS);
         let mut cols = vec![];
         let mut w = 0;
